@@ -34,10 +34,14 @@ int main(void)
   VF_ASSUME(n >= 1 && n <= 0xfffffff0u && r >= 1 && r <= 0xfffffff0u);
   vf_sess_set_seq(SESS, n, r); vf_sess_set_flags(SESS, 1, 0, 0, 0, 0); vf_sess_set_state(SESS, 1 /* st_continuous */); vf_sess_set_active(SESS, 1);
   c_valid = 1; c_snd = n; c_rcv = r;
-  in_fail = nondet_u8() & 1; in_kind = (nondet_u8() & 1) ? K_HEARTBEAT : K_APP;
-#ifdef KF_C16_REJECT_PATH       /* known-finding complement: the inbound message decodes */
+  /* decoding failure is a compile-time variant (-DFAIL): a symbolic choice merges the thrown object with "no object" in the
+     exception pointer and the catch clause's virtual calls (force_logoff, what) stop resolving */
+#ifdef FAIL
+  in_fail = 1;
+#else
   in_fail = 0;
 #endif
+  in_kind = (nondet_u8() & 1) ? K_HEARTBEAT : K_APP;
   cx_n = n; cx_r = r; cx_fail = in_fail; cx_kind = in_kind;
   static const uint8_t raw[] = "34=5\001";
   uint8_t ok = vf_sb_process(&the_sess, (uint8_t*)raw, 5) & 1;
